@@ -904,7 +904,7 @@ theorem parseUnary_err : ∀ fuel : Nat, ErrP fuel (parseUnary fuel) := by
           rename_i name argText hfn
           obtain ⟨ws, ws2, ht, _, _, hid, hlen2⟩ := scanFuncOpen_spec hfn
           have hsuf : argText <:+ t := ⟨ws ++ (name ++ (ws2 ++ ['('])), by rw [ht]; simp⟩
-          have hlen : argText.length + 3 ≤ t.length := by rw [ht]; simp; omega
+          have hlen : argText.length + 2 ≤ t.length := by rw [ht]; simp; omega
           split at h
           · rename_i e ha
             obtain ⟨m', l'⟩ := e
@@ -937,7 +937,7 @@ def pinnedRegexes : List (String × String × Nat) :=
   [
    ("parser._R_EXPR_BINARY_OP", "^\\s*(\\*\\*|\\*|\\/|%|\\+|-|<=|<|>=|>|==|!=|&&|\\|\\|)", 32),
    ("parser._R_EXPR_UNARY_OP", "^\\s*(!|-)", 32),
-   ("parser._R_EXPR_FUNCTION_OPEN", "^\\s*([A-Za-z_]\\w+)\\s*\\(", 32),
+   ("parser._R_EXPR_FUNCTION_OPEN", "^\\s*([A-Za-z_]\\w*)\\s*\\(", 32),
    ("parser._R_EXPR_FUNCTION_SEPARATOR", "^\\s*,", 32),
    ("parser._R_EXPR_FUNCTION_CLOSE", "^\\s*\\)", 32),
    ("parser._R_EXPR_GROUP_OPEN", "^\\s*\\(", 32),
@@ -953,7 +953,7 @@ def pinnedRegexes : List (String × String × Nat) :=
   ]
 
 /-- **regex_sources_pinned**: the token patterns in the working tree (regenerated into `Gen.regexes` on every run) are
-exactly the ones the hand-written scanners mirror — alternation order of the operators, `\w+` in the call pattern,
+exactly the ones the hand-written scanners mirror — alternation order of the operators, `\w*` in the call pattern (`\w+` until fix F31),
 the optional parts of the number pattern, the escape alternatives of strings and bracketed names.  A changed pattern
 breaks this obligation (and then the correspondence streams and the search decide what it means). -/
 theorem regex_sources_pinned :
@@ -1148,10 +1148,11 @@ example : parseBinary 4 "a + ".toList ≠ .error (fuelMsg, []) := (fuel_sufficie
 example : ∃ line, line <:+ "a + ".toList ∧ 4 + line.length = "a + ".length + 1 :=
   (reject_is_parser_error "a + " ⟨"Syntax error", 4⟩ (by kernel_rfl)).2.1
 
-/-- … and the rejections: trailing text, unbalanced parenthesis, a one-letter call, an operator without operand -/
+/-- … and the rejections: trailing text, unbalanced parenthesis, an operator without operand (a one-letter call is
+accepted since fix F31) -/
 example : parseExpr "a b" = .error ⟨"Syntax error", 2⟩ := by kernel_rfl
 example : parseExpr "(a" = .error ⟨"Unmatched parenthesis", 1⟩ := by kernel_rfl
-example : parseExpr "f(x)" = .error ⟨"Syntax error", 2⟩ := by kernel_rfl
+example : parseExpr "f(x)" = .ok (.function (.user "f") [v "x"]) := by kernel_rfl
 example : parseExpr "a ** " = .error ⟨"Syntax error", 5⟩ := by kernel_rfl
 example : parseExpr "1e5" = .error ⟨"Syntax error", 2⟩ := by kernel_rfl
 
